@@ -13,6 +13,7 @@ package main
 import (
 	"fmt"
 	"os"
+	"os/exec"
 	"path/filepath"
 	"strings"
 )
@@ -148,6 +149,9 @@ func (st *c05State) foreignCheck(s *c05Scenario, prog []c05Action, cur map[strin
 		return false
 	}
 	st.mu.Lock()
+	if len(st.cross) < 400 {
+		st.cross = append(st.cross, c05Cross{Init: s.Old, Cur: cur, Prog: prog, Complete: complete})
+	}
 	st.res.Count("foreign_spec_evaluations_"+phase, 1)
 	for _, k := range s.Blocked {
 		st.res.Count("foreign_tmp_"+k+"_judged_"+phase, 1)
@@ -184,4 +188,138 @@ func c05EntryDesc(f c05File) string {
 		return fmt.Sprintf("symbolic link to %q", f.Data)
 	}
 	return fmt.Sprintf("regular file of %d bytes (mode %#o, %q)", len(f.Data), f.Mode, c05Short(f.Data))
+}
+
+// ---------- extraction cross-check ----------
+
+// c05Cross collects (reduced) oracle requests that are re-evaluated by coqc with
+// vm_compute at the end of the run: the extracted OCaml code and Coq's own evaluation of
+// foreign_bad and of the run model (with entry kinds) must agree.
+type c05Cross struct {
+	Init, Cur map[string]c05File
+	Prog      []c05Action
+	Complete  bool
+}
+
+func c05Sub(m map[string]c05File) map[string]c05File {
+	out := map[string]c05File{}
+	for p, f := range m {
+		if strings.HasPrefix(p, "cat/pkg/") && len(f.Data) <= 1500 {
+			out[p] = f
+		}
+	}
+	return out
+}
+
+func c05CoqFs(m map[string]c05File) string {
+	var es []string
+	for _, p := range sortedKeys(m) {
+		f := m[p]
+		k := "KReg"
+		switch f.Kind {
+		case "D":
+			k = "KDir"
+		case "L":
+			k = "KSymlink"
+		}
+		es = append(es, fmt.Sprintf("(%s, mkfile %s %s %d)", c09CoqStr(p), k, c09CoqStr(f.Data), f.Mode))
+	}
+	return "[" + strings.Join(es, "; ") + "]"
+}
+
+func c05CoqProg(prog []c05Action) string {
+	var es []string
+	for _, a := range prog {
+		switch a.Kind {
+		case "S":
+			es = append(es, fmt.Sprintf("ASave %s %s", c09CoqStr(a.Path), c09CoqStr(a.Data)))
+		case "M":
+			es = append(es, fmt.Sprintf("AChmod %s %d", c09CoqStr(a.Path), a.Mode))
+		case "T":
+			es = append(es, fmt.Sprintf("AIfSaved true %s %s", c09CoqStr(a.Path), c09CoqStr(a.Data)))
+		case "E":
+			es = append(es, fmt.Sprintf("AIfSaved false %s %s", c09CoqStr(a.Path), c09CoqStr(a.Data)))
+		}
+	}
+	return "[" + strings.Join(es, "; ") + "]"
+}
+
+func c05CrossCheckExtraction(ctx *Ctx, res *Result, umask int, cases []c05Cross) {
+	if len(cases) > 40 {
+		cases = cases[:40]
+	}
+	if len(cases) == 0 {
+		return
+	}
+	var reqs []string
+	for _, c := range cases {
+		cc := "0"
+		if c.Complete {
+			cc = "1"
+		}
+		init := c05InitTokens(c05Sub(c.Init), umask)
+		// the data of a save does not matter to foreign_bad and to which entries survive: short contents
+		var prog []c05Action
+		for _, a := range c.Prog {
+			if len(a.Data) > 40 {
+				a.Data = a.Data[:40]
+			}
+			prog = append(prog, a)
+		}
+		reqs = append(reqs, "foreign / "+init+" / "+c05ProgTokens(prog)+" / "+c05InitTokens(c05Sub(c.Cur), umask)+" / "+cc)
+		reqs = append(reqs, "fault / "+init+" / "+c05ProgTokens(prog)+" / -1 0 EIO")
+	}
+	ans, err := runOracle(ctx, "c05", reqs)
+	if err != nil {
+		res.Broken = err.Error()
+		return
+	}
+	var sb strings.Builder
+	sb.WriteString("From PV Require Import Lib.Bytes Model.FsProto Spec.CrashSpec.\nOpen Scope N_scope.\n")
+	for i, c := range cases {
+		var prog []c05Action
+		for _, a := range c.Prog {
+			if len(a.Data) > 40 {
+				a.Data = a.Data[:40]
+			}
+			prog = append(prog, a)
+		}
+		want := "None"
+		if a := ans[2*i]; strings.HasPrefix(a, "bad ") {
+			want = "Some " + c09CoqStr(unhx(strings.TrimPrefix(a, "bad ")))
+		} else if a != "ok" {
+			res.Broken = "oracle answer " + q(a)
+			return
+		}
+		fmt.Fprintf(&sb, "Definition init_%d : fsmap := %s.\nDefinition cur_%d : fsmap := %s.\nDefinition prog_%d : list action := %s.\n", i, c05CoqFs(c05Sub(c.Init)), i, c05CoqFs(c05Sub(c.Cur)), i, c05CoqProg(prog))
+		fmt.Fprintf(&sb, "Example foreign_%d : foreign_bad %v init_%d prog_%d cur_%d = %s.\nProof. vm_compute. reflexivity. Qed.\n", i, c.Complete, i, i, i, want)
+		parts := strings.Split(ans[2*i+1], " / ")
+		fin, ok := c05ParseListing(parts[len(parts)-1])
+		if !ok {
+			res.Broken = "oracle answer " + q(ans[2*i+1])
+			return
+		}
+		// the final file system of the model's run, as a set of entries (the order of the association list is the oracle's)
+		fmt.Fprintf(&sb, "Example run_%d : let fs := st_fs (w_st (run prog_%d (init_world (mkstate init_%d [] %d) None))) in\n  forallb (fun pe => match lookup (fst pe) fs with Some f => match f_kind f, f_kind (snd pe) with KReg, KReg | KDir, KDir | KSymlink, KSymlink => true | _, _ => false end && str_eqb (f_data f) (f_data (snd pe)) && (f_mode f =? f_mode (snd pe)) | None => false end) %s && Nat.eqb (length fs) %d = true.\nProof. vm_compute. reflexivity. Qed.\n",
+			i, i, i, umask, c05CoqFs(fin), len(fin))
+	}
+	file := filepath.Join(ctx.Work, "c05cases.v")
+	if err := os.WriteFile(file, []byte(sb.String()), 0o644); err != nil {
+		res.Broken = err.Error()
+		return
+	}
+	cmd := exec.Command("timeout", "600", "coqc", "-Q", filepath.Join(ctx.Verif, "coq"), "PV", file)
+	cmd.Dir = ctx.Work
+	out, err := cmd.CombinedOutput()
+	if err != nil {
+		msg := string(out)
+		if len(msg) > 600 {
+			msg = msg[:600]
+		}
+		res.AddViolation(Violation{Key: "C05/extraction-vs-vm_compute",
+			What:       "the extracted oracle and coqc's vm_compute disagree on foreign_bad / the run model (or coqc failed): " + msg,
+			FoundInput: false, Replay: map[string]any{"broken": "extraction cross-check", "detail": msg}})
+		return
+	}
+	res.Count("vm_compute_cross_checked", 2*len(cases))
 }
